@@ -27,6 +27,15 @@ fn build(args: BuildArgs) -> anyhow::Result<Option<usize>> {
         &dumb_console
     };
 
+    #[cfg(feature = "verif")]
+    let verif_progress = crate::verif::VerifProgress;
+    #[cfg(feature = "verif")]
+    let progress: &dyn Progress = if crate::verif::active() {
+        &verif_progress
+    } else {
+        progress
+    };
+
     let build_filename = args.build_filename.as_deref().unwrap_or("build.ninja");
     let mut state = trace::scope("load::read", || load::read(build_filename))?;
     let mut work = work::Work::new(
@@ -96,6 +105,30 @@ fn build(args: BuildArgs) -> anyhow::Result<Option<usize>> {
     }
     // Include any tasks from initial build in final count of steps.
     Ok(Some(tasks_run + work.tasks_run))
+}
+
+/// Entry point for the verification harness: the real `build` with plain arguments.
+#[cfg(feature = "verif")]
+pub fn verif_build(
+    build_filename: Option<String>,
+    targets: Vec<String>,
+    parallelism: usize,
+    failures_left: Option<usize>,
+    adopt: bool,
+    explain: bool,
+) -> anyhow::Result<Option<usize>> {
+    build(BuildArgs {
+        fake_ninja_compat: adopt,
+        options: work::Options {
+            failures_left,
+            parallelism,
+            explain,
+            adopt,
+        },
+        build_filename,
+        targets,
+        verbose: false,
+    })
 }
 
 fn default_parallelism() -> anyhow::Result<usize> {
